@@ -274,6 +274,12 @@ def run(rep, tier, seed):
     common.prove(rep)
     rng = common.rng_for(seed, 'C06')
     drv = common.Driver()
+    # a read the stream cannot satisfy, at the source level: readFromStream's turn is translated from the source on every
+    # run (GenK.readTurn) and Props/C06 source_truncated_open_is_underrun / source_truncated_closed_is_end_of_stream /
+    # source_complete_read_is_data are theorems about that translation; it is run against the real generator here
+    from harness import kernels
+    kernels.obligations(rep, ['readTurn', 'eosTurn'])
+    kernels.check(rep, drv, seed, 300 if tier == 'quick' else 10000, which=('readTurn',))
     n = 700 if tier == "quick" else 6000
     rep.rule = ('valid encodings (BER definite/indefinite/chunked, CER, DER) of generated values x every cut point k in [0,|e|) '
                 '(sampled cuts for encodings longer than 40 octets) x {bytes one-shot, seekable stream, non-seekable stream; '
